@@ -674,7 +674,7 @@ pub fn run(mut ctx: Ctx) -> ! {
         Part::new(
             "pipeline_histories",
             "2-3 victims x 1-2 topics pre-filled with 0-6 operations each, then 1-12 operations (forged signature claiming a victim with/without prune flag at seq 0/mid/height/above/u32::MAX, stale or link-invalid validly signed ones, honest prunes with gaps, honest plain, duplicates) through Pipeline::process; every (author, log) compared after every step; non-trivial = a *failing* prune-flagged operation aimed at a non-empty log",
-            600,
+            400,
             15_000,
         )
         .min_nontrivial(0.3),
@@ -688,7 +688,7 @@ pub fn run(mut ctx: Ctx) -> ! {
         Part::new(
             "node_histories",
             "real Node (mdns off, in-memory db): victims' logs imported, then 1-6 steps of import batches (forged prune/plain + honest), the node's own publish/prune and a replay from start; node.store() compared with the expectation after every step; non-trivial = a forged prune-flagged operation aimed at a non-empty log was imported",
-            40,
+            24,
             1_000,
         )
         .workers(4, 8)
